@@ -109,6 +109,9 @@ func init() {
 	})
 }
 
+// Option values kept and re-applied (single-client campaigns only).
+var verifMaxExprOpts = map[uint64]Option{}
+
 func verifParse(filename string, input []byte, o *parsersim.Opts, ctx *kernel.Ctx) (val any, err error, esc any, cnt uint64) {
 	opts := []Option{GlobalStore("sim", ctx)}
 	ctx.Nested = func() {
@@ -128,7 +131,16 @@ func verifParse(filename string, input []byte, o *parsersim.Opts, ctx *kernel.Ct
 		opts = append(opts, Entrypoint(o.Entrypoint))
 	}
 	if o.MaxExpr > 0 {
-		opts = append(opts, MaxExpressions(o.MaxExpr))
+		if o.ReuseOptions {
+			mo, ok := verifMaxExprOpts[o.MaxExpr]
+			if !ok {
+				mo = MaxExpressions(o.MaxExpr)
+				verifMaxExprOpts[o.MaxExpr] = mo
+			}
+			opts = append(opts, mo)
+		} else {
+			opts = append(opts, MaxExpressions(o.MaxExpr))
+		}
 	}
 	defer func() {
 		if e := recover(); e != nil {
